@@ -116,7 +116,7 @@ def _derives_from_tagify(v: Any, child: SObj, depth: int = 0) -> bool:
     return False
 
 
-def purity(ctx: Ctx, tagify_ok: bool) -> Ownership:
+def purity(ctx: Ctx, tagify_ok: bool, rule: str = "C08.pure") -> Ownership:
     O = Ownership(ctx.prog, skip_modules=("htmltools._jsx",))
     if tagify_ok:
         # established by C08.copy above: mutable elements of a tagify() result are fresh objects
@@ -135,16 +135,16 @@ def purity(ctx: Ctx, tagify_ok: bool) -> Ownership:
         where = f"{CORE}:{q}"
         bad = [(p, st) for p, sites in sm.mutates.items() for st in sites]
         if not bad and not sm.globals:
-            ctx.ok("C08.pure", f"{q} mutates nothing reachable from its receiver/arguments and no global", paths=sm.paths)
+            ctx.ok(rule, f"{q} mutates nothing reachable from its receiver/arguments and no global", paths=sm.paths)
             continue
         for p, st in bad:
             chain = " -> ".join((q,) + st.chain) if st.chain else q
-            ctx.fail("C08.pure", f"{CORE}:{st.fn}", st.text(),
+            ctx.fail(rule, f"{CORE}:{st.fn}", st.text(),
                      f"`{st.text()}` in {st.fn} modifies {st.target}, which is reachable from `{p}` of the read-only operation {q} "
                      f"(call path: {chain}{' -> ' + st.fn if st.fn != (st.chain[-1] if st.chain else q) else ''})",
                      witness=_PURE_WITNESS.get(st.fn), line=getattr(st.node, "lineno", None))
         for st in sm.globals:
-            ctx.fail("C08.pure", f"{CORE}:{st.fn}", st.text(), f"{st.fn} writes module/process state ({st.target}) on the path of read-only operation {q}",
+            ctx.fail(rule, f"{CORE}:{st.fn}", st.text(), f"{st.fn} writes module/process state ({st.target}) on the path of read-only operation {q}",
                      line=getattr(st.node, "lineno", None))
     return O
 
@@ -156,15 +156,15 @@ _PURE_WITNESS = {
 }
 
 
-def return_ownership(ctx: Ctx, O: Ownership) -> None:
+def return_ownership(ctx: Ctx, O: Ownership, rule: str = "C08.copy") -> None:
     for q in ("Tag.tagify", "TagList.tagify"):
         sm = O.sums[q]
         where = f"{CORE}:{q}"
-        ctx.check(bool(sm.ret_fresh), "C08.copy", f"{q} returns a new object on every path", where,
+        ctx.check(bool(sm.ret_fresh), rule, f"{q} returns a new object on every path", where,
                   "; ".join(sm.ret_detail[:2]) or "returned object",
                   f"{q} can return an object that is not a fresh copy ({'; '.join(sm.ret_detail[:2])}): the result shares the tag / list with the original",
                   witness="x = div(); x.tagify() is x")
-        ctx.check(bool(sm.ret_fields_fresh), "C08.copy", f"the attribute map and child list of {q}'s result are new containers", where,
+        ctx.check(bool(sm.ret_fields_fresh), rule, f"the attribute map and child list of {q}'s result are new containers", where,
                   "fields of the returned object", f"the object returned by {q} shares its attribute map or child list with the original")
     sm = O.sums.get("Tag.__copy__")
     ctx.require(sm is not None, "Tag.__copy__ vanished")
